@@ -177,14 +177,16 @@ def reconcile (mode : Mode) (path : Path) (ancestor alpha beta : Option Entry) :
     let ancestor' := ancestorForRecursion ancestor alpha
     -- 124-131
     here ++ Plan.concat
-      ((nameUnion [contents ancestor', contents alpha, contents beta]).attach.map fun ⟨n, _⟩ =>
-        reconcile mode (path ++ [n]) (lookup n (contents ancestor')) (lookup n (contents alpha))
-          (lookup n (contents beta)))
+      ((nameUnion [contents ancestor', contents alpha, contents beta]).attach.map fun n =>
+        reconcile mode (path ++ [n.1]) (lookup n.1 (contents ancestor')) (lookup n.1 (contents alpha))
+          (lookup n.1 (contents beta)))
   -- 158-169
   else handleDisagreement mode path ancestor alpha beta
 termination_by osz ancestor + osz alpha + osz beta
 decreasing_by
-  rename_i hn
+  obtain ⟨n, hn⟩ := n
+  show _ < _
+  simp only []
   have hm := mem_nameUnion.mp hn
   have h0 : osz (ancestorForRecursion ancestor alpha) ≤ osz ancestor := by
     unfold ancestorForRecursion; split <;> simp [osz]
@@ -201,5 +203,23 @@ decreasing_by
 /-- reconcile.go:523-532 `Reconcile`. -/
 def Reconcile (ancestor alpha beta : Option Entry) (mode : Mode) : Plan :=
   reconcile mode [] ancestor alpha beta
+
+end Mutagen.Model
+
+/-! ## Vocabulary of the theorems about plans -/
+
+namespace Mutagen.Model
+
+/-- The paths that receive an action: alpha changes, beta changes, conflict roots. -/
+def Plan.actionPaths (p : Plan) : List Path :=
+  p.alpha.map (·.path) ++ p.beta.map (·.path) ++ p.conflicts.map (·.root)
+
+/-- `S` is obtained from `A` by deletions only: every entry that exists in `S`
+exists, with the same scalar fields, at the same path of `A`. -/
+def DeletionsOnly (A S : Option Entry) : Prop := ∀ q, pget S q = none ∨ pget S q = pget A q
+
+/-- Same scalar fields at every path (structural equality up to the order of
+map entries; `Entry.Equal(deep)` on well-formed maps). -/
+def SameTree (a b : Option Entry) : Prop := ∀ q, pget a q = pget b q
 
 end Mutagen.Model
